@@ -16,7 +16,7 @@ def load_corpus(prop):
 
 
 def explore(prop, scripts, judge=None, signature=None, nontrivial=None, variant="plain",
-            rule="", max_report=4, sample_n=3, extra=None):
+            rule="", max_report=4, sample_n=3, extra=None, model_first=False):
     """Run `scripts` on harness and model, compare, shrink and classify disagreements.
 
     judge(pair, script, impl_lines, model_lines) -> (failing_input_found: bool, text)
@@ -25,7 +25,7 @@ def explore(prop, scripts, judge=None, signature=None, nontrivial=None, variant=
     pair = vlib.Pair(variant)
     corpus = load_corpus(prop)
     allscripts = corpus + list(scripts)
-    bad, a, b, crashes = pair.diff(allscripts)
+    bad, a, b, crashes = pair.diff(allscripts, model_first=model_first)
     violations = []
     for (i, err) in crashes[:max_report]:
         violations.append(("harness died on a script (crash or sanitizer abort): " + err[-300:],
@@ -44,6 +44,8 @@ def explore(prop, scripts, judge=None, signature=None, nontrivial=None, variant=
     sigs = set()
     dist = {}
     for s, r in zip(allscripts, a):
+        if r and r[0] == "<skipped>":
+            continue
         if signature:
             for sg in signature(s, r):
                 sigs.add(sg)
@@ -62,7 +64,8 @@ def explore(prop, scripts, judge=None, signature=None, nontrivial=None, variant=
            "rule": rule, "samples": samples,
            "traces_validated_against_impl": len(allscripts) - len(bad),
            "distribution": dist, "violations": violations,
-           "corpus_scripts": len(corpus), "harness_build_s": pair.build_s}
+           "corpus_scripts": len(corpus), "harness_build_s": pair.build_s,
+           "skipped_by_model": getattr(pair, "skipped", 0)}
     if extra:
         ctx.update(extra)
     return ctx
